@@ -654,6 +654,7 @@ fn main() {
     // (a refactoring that moves a comparison into a new helper must not blind the check)
     let mut autodeps = false;
     let mut emitted: BTreeSet<String> = BTreeSet::new();
+    let mut auto_emitted: BTreeSet<String> = BTreeSet::new();
     let host_defs: BTreeSet<String> = {
         let mut names = BTreeSet::new();
         let host = Path::new(&args[2]).parent().map(|d| d.join("src")).unwrap_or_default();
@@ -1004,6 +1005,19 @@ fn main() {
         if out.items.len() == before {
             die(&format!("{ctx}: matched nothing in {}", src.path));
         }
+        // a function this selector names may already be there because an earlier slice calls it
+        // (autodeps): keep the first copy
+        if kw == "fn" {
+            let mut i = before;
+            while i < out.items.len() {
+                let dup = matches!(&out.items[i], Item::Fn(f) if auto_emitted.contains(&f.sig.ident.to_string()));
+                if dup {
+                    out.items.remove(i);
+                } else {
+                    i += 1;
+                }
+            }
+        }
         for it in &out.items[before..] {
             if let Item::Fn(f) = it {
                 emitted.insert(f.sig.ident.to_string());
@@ -1025,6 +1039,7 @@ fn main() {
                         if let Item::Fn(f) = it {
                             if f.sig.ident == name && !is_cfg_test(&f.attrs) {
                                 emitted.insert(name.clone());
+                                auto_emitted.insert(name.clone());
                                 out.items.push(it.clone());
                             }
                         }
